@@ -417,7 +417,7 @@ def _tree_from_snapshot(snap):
     d = DiffX()
     cur_c = cur_f = None
     for sid, opts, content in snap:
-        if sid == 'diffx':
+        if sid in ('diffx', 'None'):        # DiffX.section_id is 'None' (no section_name on the main class)
             sec = d
         elif sid == '.preamble':
             sec = d.preamble_section
